@@ -131,6 +131,16 @@ partial def parseGoData (j : Json) : R GoData := do
           match cfgMerge o t b with
           | .ok t' => pure t'
           | _ => throw "merged config source: merge failed") t0
+        let rms := match optField v "removes" with
+          | some (.arr s) => s.toList
+          | _ => []
+        let t ← rms.foldlM (fun (t : Val) (rm : Json) => do
+          let o ← parseOpts ((optField rm "opts").getD (.arr #[]))
+          let name := strFieldD rm "name" ""
+          let idx : Int := ((optField rm "idx").bind (fun j => j.getInt?.toOption)).getD (-1)
+          match pathRemove tcPlain (parsePathIdx name idx o) t with
+          | .ok (t', _) => pure t'
+          | _ => throw "merged config source: remove failed") t
         pure (.cfg t)
       | _ => throw "merged config source does not normalize"
     else if (optField j "unsup").isSome then pure .unsupported
